@@ -73,7 +73,8 @@ def convert(tb, hook_events, sid, cfg, kind, stats, mon=True):
         return h
     cur_idx = None
     pending_frame = None      # (idx, asserted ids)
-    gives = {}
+    gives = {}                # frame id -> roots (accumulated over re-processing of the frame)
+    idx2id = {}
     def flush_frame():
         nonlocal pending_frame
         if pending_frame is None:
@@ -81,9 +82,9 @@ def convert(tb, hook_events, sid, cfg, kind, stats, mon=True):
         idx, asserted = pending_frame
         pending_frame = None
         given = []
-        for j in sorted(gives):
+        for j in sorted(idx2id):
             if j <= idx:
-                given += gives[j]
+                given += gives.get(idx2id[j], [])
         q = []
         ok = mon and tb.max_abs(asserted + given) <= C.MAXNUM and len(asserted) <= 12
         if ok and given:
@@ -147,17 +148,16 @@ def convert(tb, hook_events, sid, cfg, kind, stats, mon=True):
                 flush_frame()
                 cur_idx = ev["idx"]
                 asserted = [rd.read(a) for a in ev["asserted"]]
-                for j in [j for j in gives if j >= cur_idx]:
-                    del gives[j]
-                gives[cur_idx] = []
+                for j in [j for j in idx2id if j > cur_idx]:
+                    del idx2id[j]
+                idx2id[cur_idx] = ev["id"]
                 pending_frame = (cur_idx, asserted)
-                out.append({"e": "frame", "idx": cur_idx, "asserted": asserted})
+                out.append({"e": "frame", "idx": cur_idx, "id": ev["id"], "asserted": asserted})
                 stats["frames"] = stats.get("frames", 0) + 1
             elif e == "give":
                 root = rd.read(ev["root"])
-                if cur_idx is not None:
-                    gives.setdefault(cur_idx, []).append(root)
-                    out.append({"e": "give", "idx": cur_idx, "root": root})
+                gives.setdefault(ev["id"], []).append(root)
+                out.append({"e": "give", "id": ev["id"], "root": root})
             elif e == "check":
                 flush_frame()
                 out.append({"e": "check", "ret": ev["ret"]})
